@@ -649,11 +649,12 @@ def showNodeState (i : Nat) (n : Repl.Node) : String :=
 /-- protocol scripts (C01-C05) on M-Repl -/
 def stepRepl (st : State) (toks : List String) : State × String :=
   let w := st.world
-  let g := Facts.lateRequestCannotConvertLeader
+  let g : Repl.Cfg := ⟨Facts.lateRequestCannotConvertLeader, Facts.truncateComparesWithFollowerTermEntry, Facts.followerTruncateOnlyWhenFenced,
+    Facts.cursorStartsAtTruncatedHead, Facts.followerAppendChecksTermAlways⟩
   let get (k : String) : String := (DbProto.kvOf toks k).getD "_"
   if toks.head? != some "p.init" && w.nodes.length == 0 then (st, "bad-op") else
   -- the RPCs act on settled states
-  let w := if ["p.newterm", "p.lead", "p.elect", "p.add", "p.write", "p.restart", "p.cut"].contains (toks.headD "") then Repl.settle g w else w
+  let w := if ["p.newterm", "p.lead", "p.elect", "p.electm", "p.add", "p.write", "p.racewrite", "p.restart", "p.cut"].contains (toks.headD "") then Repl.settle g w else w
   match toks with
   | "p.init" :: _ => ({ st with world := Repl.World.init ((get "n").toNat?.getD 3) }, "ok")
   | ["p.newterm", i, t] =>
@@ -675,22 +676,24 @@ def stepRepl (st : State) (toks : List String) : State × String :=
       ({ st with world := w' }, match r with | .ok _ => "ok" | .error e => showReplErr e)
     | _, _ => (st, "bad-op")
   | ["p.elect", want, t] =>
-    -- the coordinator's election: fence every reachable node, install the responder with the best head
-    -- (the wanted one on a tie) with the other responders as followers
+    -- the coordinator's election over the whole cluster
     match want.toNat?, t.toInt? with
     | some want, some t =>
-      let (w1, heads) := (List.range w.nodes.length).foldl (fun (acc : Repl.World × List (Nat × (Int × Int))) i =>
-        if acc.1.cut.contains i then acc else
-        match Repl.newTerm acc.1 i t with
-        | (w', .ok h) => (w', acc.2 ++ [(i, h)])
-        | (w', .error _) => (w', acc.2)) (w, [])
-      if 2 * heads.length ≤ w.nodes.length then ({ st with world := w1 }, "no-quorum") else
-      let better (a b : Int × Int) : Bool := a.1 > b.1 || (a.1 == b.1 && a.2 > b.2)
-      let first := match heads.find? (·.1 = want) with | some x => x | none => heads.headD (0, (-1, -1))
-      let best := heads.foldl (fun acc x => if better x.2 acc.2 then x else acc) first
-      let fm := heads.filter (·.1 ≠ best.1)
-      let (w2, r) := Repl.becomeLeader g w1 best.1 t w.nodes.length fm
-      ({ st with world := w2 }, match r with | .ok _ => "leader=" ++ toString best.1 | .error e => showReplErr e)
+      let (w', r) := Repl.elect g Facts.newTermQuorumMajorityOverEnsembleAndRemoved w want t (List.range w.nodes.length) []
+      ({ st with world := w' }, match r with
+        | .ok l => "leader=" ++ toString l
+        | .error .timeout => "no-quorum"
+        | .error e => showReplErr e)
+    | _, _ => (st, "bad-op")
+  | "p.electm" :: want :: t :: _ =>
+    -- an election for a given ensemble, with nodes being removed by a swap
+    match want.toNat?, t.toInt? with
+    | some want, some t =>
+      let (w', r) := Repl.elect g Facts.newTermQuorumMajorityOverEnsembleAndRemoved w want t (parseNatList (get "members")) (parseNatList (get "removed"))
+      ({ st with world := w' }, match r with
+        | .ok l => "leader=" ++ toString l
+        | .error .timeout => "no-quorum"
+        | .error e => showReplErr e)
     | _, _ => (st, "bad-op")
   | ["p.add", l, t, f, h] =>
     match l.toNat?, t.toInt?, f.toNat?, parseHead h with
@@ -704,6 +707,15 @@ def stepRepl (st : State) (toks : List String) : State × String :=
       let (w', r) := Repl.write g w i id
       ({ st with world := w' }, match r with | .ok _ => "ok" | .error e => showReplErr e)
     | _, _ => (st, "bad-op")
+  | ["p.racewrite", i, id, t] =>
+    match i.toNat?, id.toNat?, t.toInt? with
+    | some i, some id, some t =>
+      let (w', r) := Repl.raceWriteNewTerm g Facts.newTermWaitsForInFlightAppends w i id t
+      let h := Repl.headOf (Repl.getNode w' i).log
+      ({ st with world := w' }, match r with
+        | .ok rep => "head=" ++ toString rep.1 ++ ":" ++ toString rep.2 ++ " wal=" ++ toString h.1 ++ ":" ++ toString h.2
+        | .error e => showReplErr e)
+    | _, _, _ => (st, "bad-op")
   | ["p.cut", i] => match i.toNat? with
     | some i => ({ st with world := { w with cut := if w.cut.contains i then w.cut else w.cut ++ [i] } }, "ok")
     | none => (st, "bad-op")
